@@ -242,6 +242,46 @@ impl<'tcx> Ex<'tcx> {
                 }
                 let repr = with_no_trimmed_paths!(format!("{}", c.const_));
                 let _ = write!(s, ",\"repr\":{}", js(&repr));
+                // promoted constant (`&ErrorKind::NotFound`, `&['a','b']`, ...): say what it is made of
+                if let mir::Const::Unevaluated(uv, _) = c.const_ {
+                    if let Some(pr) = uv.promoted {
+                        if uv.def.is_local() {
+                            let bodies = tcx.promoted_mir(uv.def);
+                            if let Some(pb) = bodies.get(pr) {
+                                let mut parts: Vec<String> = Vec::new();
+                                for bbd in pb.basic_blocks.iter() {
+                                    for st in bbd.statements.iter() {
+                                        if let StatementKind::Assign(bx) = &st.kind {
+                                            let (_, rv) = &**bx;
+                                            match rv {
+                                                Rvalue::Aggregate(ak, ops) => {
+                                                    if let AggregateKind::Adt(ad, vi, _, _, _) = &**ak {
+                                                        let adef = tcx.adt_def(*ad);
+                                                        let v = adef.variant(*vi);
+                                                        parts.push(format!("{}::{}", self.path(*ad), v.name));
+                                                    } else {
+                                                        parts.push(format!("{:?}", ak).chars().take(24).collect());
+                                                    }
+                                                    for o in ops.iter() {
+                                                        if let Operand::Constant(cc) = o {
+                                                            parts.push(with_no_trimmed_paths!(format!("{}", cc.const_)));
+                                                        }
+                                                    }
+                                                }
+                                                Rvalue::Use(Operand::Constant(cc), ..) => {
+                                                    parts.push(with_no_trimmed_paths!(format!("{}", cc.const_)));
+                                                }
+                                                _ => {}
+                                            }
+                                        }
+                                    }
+                                }
+                                let pj: Vec<String> = parts.iter().map(|x| js(x)).collect();
+                                let _ = write!(s, ",\"promoted\":[{}]", pj.join(","));
+                            }
+                        }
+                    }
+                }
             }
         }
         s.push('}');
